@@ -486,6 +486,89 @@ def _gen_tx(tx: ast.Module) -> Dict[str, object]:
     return {"max_retries": max_retries, "table": table}
 
 
+def _gen_create(mm: ast.Module) -> Dict[str, object]:
+    """initialize_table: skeleton per storage configuration + what a failing pointer creation does."""
+    fn = find_function(mm, "initialize_table", "MetadataManager")
+    body = strip_docstring(fn.body)
+    if not (len(body) == 1 and isinstance(body[0], ast.With) and _u(body[0].items[0].context_expr) == "self._lock"):
+        raise Unsupported("initialize_table is not `with self._lock:` around everything")
+    inner = body[0].body
+    if not (len(inner) == 2 and isinstance(inner[0], ast.Expr) and _cn(inner[0].value) == "self.lock_provider.acquire"
+            and isinstance(inner[1], ast.Try) and not inner[1].handlers and not inner[1].orelse
+            and len(inner[1].finalbody) == 1 and _cn(getattr(inner[1].finalbody[0], "value", None)) == "self._release_lock_safely"):
+        raise Unsupported("initialize_table is not `acquire(); try: ... finally: self._release_lock_safely()`")
+    sec = inner[1].body
+    # first statement: the existence guard
+    g = sec[0]
+    if not (isinstance(g, ast.If) and _u(g.test) == "self._current_version_info() is not None" and not g.orelse
+            and len(g.body) == 1 and isinstance(g.body[0], ast.Raise) and _cn(g.body[0].exc) == "TableExistsError"):
+        raise Unsupported("initialize_table: the section does not start with the `already initialized -> TableExistsError` guard")
+    paths: Dict[bool, List[str]] = {}
+    fails: Dict[Tuple[bool, bool, str], str] = {}
+    text = [_u(s) for s in sec]
+    need = ["metadata_file = self._new_metadata_filename(0)", "metadata_path = f'{self.metadata_path}/{metadata_file}'",
+            "self._write_metadata_file(metadata_path, metadata)"]
+    pos = [text.index(n) if n in text else -1 for n in need]
+    if -1 in pos or pos != sorted(pos):
+        raise Unsupported(f"initialize_table: v0 is not written as <fresh name> under the metadata path: {pos}")
+    cfg = [s for s in sec if isinstance(s, ast.If) and _is_cfg_test(s.test)]
+    if len(cfg) != 1 or sec.index(cfg[0]) < pos[-1]:
+        raise Unsupported("initialize_table: the pointer creation (if self.storage.supports_cas ...) does not follow the v0 write")
+    known = {"self._current_version_info", "self._new_metadata_filename", "self._write_metadata_file", "self.storage.write_file_cas",
+             "self.storage.write_file", "self._discard_unpublished_metadata", "int", "datetime.now", "(datetime.now).timestamp",
+             "TableExistsError", "metadata_file.encode"}
+    for s in sec:
+        for c in ast.walk(s):
+            if isinstance(c, ast.Call) and _cn(c) not in known and not _cn(c).startswith("logger."):
+                raise Unsupported(f"initialize_table: call outside the known vocabulary: {_cn(c)}")
+    for cas in (True, False):
+        br = cfg[0].body if cas else cfg[0].orelse
+        trs = [s for s in br if isinstance(s, ast.Try)]
+        if len(trs) != 1 or any(not isinstance(s, (ast.Try, ast.ImportFrom)) for s in br):
+            raise Unsupported(f"initialize_table: pointer-creation branch (cas={cas}) changed shape")
+        tr = trs[0]
+        want = ("self.storage.write_file_cas(self.HINT_PATH, metadata_file.encode('utf-8'), etag=None)" if cas
+                else "self.storage.write_file(self.HINT_PATH, metadata_file.encode('utf-8'))")
+        if [_u(x) for x in tr.body] != [want] or tr.orelse or tr.finalbody:
+            raise Unsupported(f"initialize_table: pointer write (cas={cas}) is not `{want}`: {[_u(x) for x in tr.body]}")
+        paths[cas] = ["ALock", "ACheckAbsent", "AStamp", "AWriteMeta", "APtrCreate", "ARelease"]
+        if "metadata.last_updated_ms = int(datetime.now().timestamp() * 1000)" not in text or text.index("metadata.last_updated_ms = int(datetime.now().timestamp() * 1000)") > pos[-1]:
+            raise Unsupported("initialize_table: v0 is not stamped before it is written")
+        for err in ("FEPrecondition", "FEError"):
+            for atomic in (True, False):
+                h = None
+                for cand in tr.handlers:
+                    names = _handler_classes(cand)
+                    if (err == "FEPrecondition" and cas and "CASConflictError" in names) or any(n in ("Exception", "BaseException") for n in names):
+                        h = cand
+                        break
+                if not cas and err == "FEPrecondition":
+                    continue
+                if h is None:
+                    fails[(cas, atomic, err)] = "CFKeepRaise"      # no handler: the error propagates, v0 stays
+                    continue
+                # handler body: raise TableExistsError(...) | [if atomic: discard] raise
+                raised = [x for x in h.body if isinstance(x, ast.Raise)]
+                if len(raised) != 1 or h.body[-1] is not raised[0]:
+                    raise Unsupported("initialize_table: pointer-creation handler does not end in one raise")
+                if raised[0].exc is not None:
+                    if _cn(raised[0].exc) != "TableExistsError" or len(h.body) != 1:
+                        raise Unsupported(f"initialize_table: handler raises {_u(raised[0].exc)[:60]}")
+                    fails[(cas, atomic, err)] = "CFTableExists"
+                    continue
+                disc = False
+                for x in h.body[:-1]:
+                    if isinstance(x, ast.If) and _u(x.test) == "self.storage.atomic_write_failures" and not x.orelse \
+                            and [_u(y) for y in x.body] == ["self._discard_unpublished_metadata(metadata_path)"]:
+                        disc = disc or atomic
+                    elif isinstance(x, ast.Expr) and _u(x) == "self._discard_unpublished_metadata(metadata_path)":
+                        disc = True
+                    else:
+                        raise Unsupported(f"initialize_table: statement in the pointer-creation handler: {_u(x)[:80]}")
+                fails[(cas, atomic, err)] = "CFDiscardRaise" if disc else "CFKeepRaise"
+    return {"paths": paths, "fails": fails}
+
+
 def _b(x: bool) -> str:
     return "true" if x else "false"
 
@@ -497,6 +580,7 @@ def gen(src: str) -> str:
     c = _gen_commit(mm)
     f = _gen_flip(mm)
     t = _gen_tx(tx)
+    cr = _gen_create(mm)
     conj = " && ".join(f"(cur_{STAMP_FIELDS[x]} =? base_{STAMP_FIELDS[x]})" for x in c["validated"]) or "true"
     out = [
         "(* GENERATED by translator/gen_commit.py from metadata_manager.py / transaction.py -- do not edit. *)",
@@ -529,6 +613,15 @@ def gen(src: str) -> str:
         f"Definition gen_max_retries : nat := {t['max_retries']}%nat.",
         "Definition gen_tx_on (e : exn_class) (last_attempt : bool) : tx_action :=\n  match e, last_attempt with\n" +
         "\n".join(f"  | {k[0]}, {_b(k[1])} => {v}" for k, v in t["table"].items()) + "\n  end.",
+        "",
+        "(* MetadataManager.initialize_table: protocol actions in program order, conditional-write / plain storage *)",
+        f"Definition gen_create_path_cas : list paction :=\n  [{'; '.join(cr['paths'][True])}].",
+        f"Definition gen_create_path_plain : list paction :=\n  [{'; '.join(cr['paths'][False])}].",
+        "(* ... and what a failing creation of the version pointer does *)",
+        "Definition gen_create_fail (cas atomic_write_failures : bool) (err : flip_err) : create_fail :=\n"
+        "  match cas, atomic_write_failures, err with\n" +
+        "\n".join(f"  | {_b(k[0])}, {_b(k[1])}, {k[2]} => {v}" for k, v in sorted(cr["fails"].items(), key=lambda kv: (not kv[0][0], not kv[0][1], kv[0][2]))) +
+        "\n  | false, _, FEPrecondition => CFKeepRaise    (* no conditional write is issued *)\n  end.",
         "",
     ]
     return "\n".join(out)
